@@ -53,6 +53,11 @@ func plan(tier string, seed int64) []driver.Case {
 		for _, t := range []string{"publish", "behavior", "replay", "async", "unicast"} {
 			add("subject", t, s)
 		}
+		// time-driven operators whose timers really fire while the source emits (the catalogue's 1 h
+		// variants never tick), with a stateful library operator downstream
+		for _, t := range timedNames {
+			add("timed", t, s)
+		}
 		for _, t := range []string{"connectable", "connectable-noreset", "share", "sharereplay", "share-noreset"} {
 			add("hot", t, s)
 		}
@@ -64,6 +69,28 @@ func plan(tier string, seed int64) []driver.Case {
 		}
 	}
 	return cases
+}
+
+var timedNames = []string{"BufferWithTime", "BufferWithTimeOrCount", "SampleTime", "ThrottleTime", "Timeout", "Delay", "DelayEach", "TimeInterval"}
+
+func timedPipeline(name string, d time.Duration, o ro.Observable[int]) catalog.Pipeline {
+	switch name {
+	case "BufferWithTime":
+		return catalog.P(ro.BufferWithTime[int](d)(o))
+	case "BufferWithTimeOrCount":
+		return catalog.P(ro.BufferWithTimeOrCount[int](3, d)(o))
+	case "SampleTime":
+		return catalog.P(ro.SampleTime[int](d)(o))
+	case "ThrottleTime":
+		return catalog.P(ro.ThrottleTime[int](d)(o))
+	case "Timeout":
+		return catalog.P(ro.Timeout[int](d)(o))
+	case "Delay":
+		return catalog.P(ro.Delay[int](d)(o))
+	case "DelayEach":
+		return catalog.P(ro.DelayEach[int](d / 8)(o))
+	}
+	return catalog.P(ro.TimeInterval[int]()(o))
 }
 
 func silentRec() *rec.Rec { r := rec.New("silent"); r.Silent = true; return r }
@@ -109,15 +136,36 @@ func runScenario(c driver.Case) (ops int64) {
 		}
 	}
 	switch c.Get("kind") {
+	case "timed":
+		d := time.Duration(50+rng.Intn(300)) * time.Microsecond
+		source := quietSource("s", 150+rng.Intn(150), []rec.Kind{rec.Complete, rec.Error, rec.Next}[rng.Intn(3)], start)
+		source.Gap = time.Duration(rng.Intn(40)) * time.Microsecond
+		p := timedPipeline(target, d, source.Observable()).Counted()
+		var sub ro.Subscription
+		func() { defer func() { recover() }(); sub = p.Subscribe(context.Background(), silentRec(), false) }()
+		goN(1, func(g int, r *rand.Rand) {
+			time.Sleep(time.Duration(500+r.Intn(4000)) * time.Microsecond)
+			if sub != nil && r.Intn(2) == 0 {
+				sub.Unsubscribe()
+			}
+		})
+		ops = 300
 	case "entry", "concsub":
 		e := catalog.Get(target)
 		b := &catalog.B{}
 		for i := 0; i < e.NSrc; i++ {
 			end := rec.Complete
-			if rng.Intn(5) == 0 {
+			switch rng.Intn(6) {
+			case 0:
 				end = rec.Next
+			case 1, 2:
+				end = rec.Error // a source failing while the others emit: the error paths take the same locks
 			}
-			b.Srcs = append(b.Srcs, quietSource(fmt.Sprintf("s%d", i), 30+rng.Intn(40), end, start).Observable())
+			n := 30 + rng.Intn(40)
+			if end == rec.Error {
+				n = 3 + rng.Intn(30) // fails while the other sources are still in full swing
+			}
+			b.Srcs = append(b.Srcs, quietSource(fmt.Sprintf("s%d", i), n, end, start).Observable())
 		}
 		p := e.Pipeline(b)
 		if rng.Intn(2) == 0 {
